@@ -192,8 +192,11 @@ fn stall_with_backlog(cap: Option<usize>) -> usize {
     };
     let mut accepted = Vec::new();
     for m in ["stall.a:1|c", "b:2|c", "c:3|c", "stall.d:4|c", "e:5|c"] {
-        if q.emit(m).is_ok() {
-            accepted.push(m.to_string());
+        // (five short metrics: never more than the capacity of 8 - the answer depends on queue room only, however
+        // long the wrapped sink has been busy with one call)
+        match q.emit(m) {
+            Ok(n) if n == m.len() => accepted.push(m.to_string()),
+            other => fail("C10", format!("emit({:?}) returned {:?} with {} metrics queued (capacity {:?}) while the wrapped sink was busy for a long time", m, other, q.queued(), cap)),
         }
         std::thread::sleep(Duration::from_secs(7));
     }
